@@ -170,6 +170,9 @@ func WorkerMain() int {
 			break
 		}
 		out.Evaluations++
+		if res.Evals > 1 {
+			out.Evaluations += res.Evals - 1
+		}
 		out.SimTimeNS += int64(res.SimTime)
 		out.Steps += int64(res.Steps)
 		out.Inconcl += res.Inconcl
@@ -182,6 +185,9 @@ func WorkerMain() int {
 		if res.Nontrivial {
 			sigs[tr.ShapeSig()] = true
 		}
+		for _, s := range res.ExtraSigs {
+			sigs[s] = true
+		}
 		if selftest {
 			out.Hashes[strconv.FormatUint(seed, 10)] = tr.Hash()
 		}
@@ -189,6 +195,9 @@ func WorkerMain() int {
 			out.Samples = append(out.Samples, map[string]any{"seed": seed, "scenario": sc, "events": tr.Events(), "sim_time_s": res.SimTime.Seconds()})
 		}
 		if res.Viol != nil {
+			if res.Derived != nil {
+				sc = res.Derived
+			}
 			vo := handleViolation(p, id, tier, seed, sc, res.Viol, known, replayDir, &out.HarnessErr)
 			if vo == nil {
 				break // harness error (non-reproducible)
@@ -282,7 +291,8 @@ func handleViolation(p *Prop, id, tier string, seed uint64, sc any, v *Violation
 	}
 	scb, _ := json.Marshal(min)
 	rp := Replay{Property: id, Seed: seed, Tier: tier, Scenario: scb, Violation: *res.Viol,
-		LogHash: tr.Hash(), Minimised: p.Shrink != nil, ShrinkRan: runs, Trace: tr.Lines}
+		LogHash: tr.Hash(), Minimised: p.Shrink != nil, ShrinkRan: runs}
+	rp.Trace = tr.Lines
 	if len(rp.Trace) > 4000 {
 		rp.Trace = append(rp.Trace[:2000:2000], rp.Trace[len(rp.Trace)-2000:]...)
 	}
@@ -318,6 +328,8 @@ func replayMain(p *Prop, path string) int {
 		fmt.Fprintln(os.Stderr, herr)
 		return 2
 	}
+	hash := tr.Hash()
+	_ = hash
 	if os.Getenv("VERIF_REPLAY_VERBOSE") != "" {
 		for _, l := range tr.Lines {
 			fmt.Println("  " + l)
